@@ -10,7 +10,8 @@ EXPLANATION = ("Decides structural necessary conditions of subtree composition, 
                "parent_node_output(left, right, mode key, mode flags) and end in chaining_value / root_hash / "
                "OutputReader::new; mode table pairing of Mode::key_words with Mode::flags_byte per variant; S5 the "
                "input offset is written only by set_input_offset (and reset), to both counters, under both asserts, "
-               "root finalizers refuse a non-zero offset, and count()/merge_cv_stack subtract it consistently. "
+               "root finalizers refuse a non-zero offset, and count()/merge_cv_stack subtract it consistently; H5 every ChunkState built "
+               "while updating takes an absolute counter (chunk_counter + 1), never the offset-relative count(). "
                "Subtree hashing runs through the same Hasher, so also: S1 reset restores every field a gate can write (the hazmat "
                "offset included), MO merge order, the flag/counter discipline at every compression site (Fs, Fh, Fl, F5, F6), K3M1 "
                "scratch sizes, W1/G3 the wide-subtree split, LZ lazy merging, ZP zero padding of the block buffer. "
@@ -32,6 +33,7 @@ def run(ctx):
     ctx.run_rule("F6m", r_hazmat.rule_mode_pairing, cfgs)
     ctx.run_rule("S5", r_hazmat.rule_S5, cfgs)
     ctx.run_rule("H4", r_hazmat.rule_H4, cfgs)
+    ctx.run_rule("H5", r_hazmat.rule_H5, cfgs)
     # subtree hashing goes through the same Hasher: reset must clear the hazmat offset, merges keep their order, the
     # compression sites keep their flag/counter discipline, wide subtrees split as W1 says, buffers are zero padded
     import r_state
